@@ -4,6 +4,7 @@
 //! then runs in a fresh child process) or an instance `Container`; slot 1 = a second instance
 //! `Container`; slot 2 = a `LocalContainer` (behind `Rc<RefCell<_>>`, the way the crate's own
 //! tests let local factories reach their container).  Ops register keys of the fixed universe
+//! (8 types x 16 names, 13 of them confusable with another name — universe.rs `name_of`)
 //! with every registration form, with factories that resolve other keys (same or other
 //! container), and resolve keys through `get` and the macros.  After the generated ops every
 //! key of every slot is resolved once more (the *sweep*), so aliasing and "unregistered" are
@@ -462,6 +463,7 @@ fn run(case: &SeqCase, env: &mut Env, pr: &Progress) -> Result<CaseReport, Failu
   let mut m = Model::new();
   let mut fl = Flags::default();
   let mut rereg_resolved = false;
+  let mut saw_unregistered_none = false;
   let nops = case.ops.len();
   // generated ops, then the sweep
   let mut step = 0usize;
@@ -583,7 +585,8 @@ fn run(case: &SeqCase, env: &mut Env, pr: &Progress) -> Result<CaseReport, Failu
             return Err(Failure::new(P, format!("E1/{c}/unregistered_key_resolved"), format!("{}: key was never registered in this container but resolved to {:?} (registration of {:?})", what!(), g.inst, from)));
           }
           (Ok(None), Ok(None)) => {
-            rep.class("E1:unregistered_none");
+            // (a flag, not `rep.class`: the sweep comes here some 350 times per case)
+            saw_unregistered_none = true;
           }
           (Ok(Some(_)), Ok(None)) => {
             // "the latest registration of a key is the one resolved afterwards"
@@ -643,6 +646,9 @@ fn run(case: &SeqCase, env: &mut Env, pr: &Progress) -> Result<CaseReport, Failu
         check_logs(env, &m, &format!("E1/{c}/{kind_s}"), step)?;
       }
     }
+  }
+  if saw_unregistered_none {
+    rep.class("E1:unregistered_none");
   }
   if fl.dep_factory {
     rep.class("E1:factory_resolved_another_service");
